@@ -25,7 +25,7 @@ RULE = ('(a) requirement x version grid: operators {bare,^,~,=,<,<=,>,>=} x part
         'examples, numeric/alphanumeric/hyphen/upper-case identifiers, longer lists, build metadata) + Hypothesis random '
         'versions: trichotomy, operator consistency, antisymmetry, transitivity, reference comparator; every pair/triple '
         'with two different versions is non-trivial. (c) every cfg tree of depth<=2 over atoms {a,b,unix,k="v",k="w"} with '
-        'all/any arity 0-3 and not; depth 3 = not(t)/all|any(t)/all|any(t,u) over those (thorough: all, quick: every third) '
+        'all/any arity 0-3 and not; depth 3 = not(t)/all|any(t)/all|any(t,u) over those (thorough: all, quick: every ninth by index+seed) '
         '+ seeded arity-3 samples; each under all 40 assignments; space-only renderings demand the exact Boolean of the '
         'generated tree, tab/newline renderings and string values holding blanks/delimiters demand "MesonException or that '
         'Boolean"; non-trivial = >=2 operators, distinct by (tree, assignment). (d) malformed: every token string of '
@@ -258,7 +258,9 @@ def _req_shard(shard: T.Tuple[T.List[T.List[T.Tuple[str, str]]], int, int, int, 
     sample_budget = 3
 
     def add(f: T.Optional[Failure]) -> None:
-        if f is not None and f.sig not in sigs:
+        if f is None:
+            raise HarnessError('inline cell check and check_req_cell disagree')
+        if f.sig not in sigs:
             sigs.add(f.sig)
             fails.append(f)
 
@@ -609,6 +611,16 @@ def shrink_tree(eval_cfg: T.Any, MesonException: T.Any, tree: T.Any, cfgs: T.Dic
     return tree
 
 
+def _has_leading_blank_value(tree: T.Any) -> bool:
+    if tree[0] == 'eq':
+        return tree[2][:1].isspace()
+    if tree[0] == 'not':
+        return _has_leading_blank_value(tree[1])
+    if tree[0] in ('all', 'any'):
+        return any(_has_leading_blank_value(t) for t in tree[1])
+    return False
+
+
 def check_cfg_tree(eval_cfg: T.Any, MesonException: T.Any, tree: T.Any, cfgs: T.Dict[str, str], style: int,
                    shrink: bool = True, weak_value: bool = False) -> T.Optional[Failure]:
     text = R.cfg_render(tree, style)
@@ -631,7 +643,7 @@ def check_cfg_tree(eval_cfg: T.Any, MesonException: T.Any, tree: T.Any, cfgs: T.
             if exact:
                 sig = f'cfg/eval:{root}'
             elif weak_value:
-                sig = 'cfg/value-weak:mis-evaluated'
+                sig = 'cfg/value-leading-blank-dropped' if _has_leading_blank_value(tree) else 'cfg/value-weak:mis-evaluated'
             else:
                 sig = 'cfg/eval-blank:' + ('tab' if '\t' in text else 'newline')
             f = Failure(sig, None, f'eval_cfg({"cfg(" + text + ")"!r}, {cfgs}) = {got!r}; the generated tree {tree} evaluates to {want}')
@@ -768,6 +780,7 @@ def _cfg_value_shard(shard: int, ev: Evidence, fails: T.List[Failure]) -> None:
 
 TOKS = ['all', 'any', 'not', '(', ')', ',', '=', '"', 'a', 'b', '"v"', ' ', 'k']
 KEYWORDS = ('all', 'any', 'not')
+WORDS = ('all', 'any', 'not', 'a', 'b', 'k')
 PROBE_CFGS = {'a': '', 'k': 'v'}
 
 
@@ -815,20 +828,35 @@ def check_cfg_text(eval_cfg: T.Any, MesonException: T.Any, text: str, cfgs: T.Di
     return None, cls + '/evaluated'
 
 
+def shrink_text_failure(eval_cfg: T.Any, MesonException: T.Any, f: Failure) -> Failure:
+    """character-level ddmin of a failing text, keeping the signature"""
+    from harness.core import minimize_list
+    best = [f]
+
+    def still(chars: T.List[str]) -> bool:
+        g, _ = check_cfg_text(eval_cfg, MesonException, ''.join(chars), f.case['cfgs'])
+        if g is not None and g.sig == f.sig:
+            best[0] = g
+            return True
+        return False
+
+    minimize_list(list(f.case['text']), still, max_tests=600)
+    return best[0]
+
+
 def _malformed_enum_shard(shard: T.Tuple[T.Tuple[str, ...], int], ev: Evidence, fails: T.List[Failure]) -> None:
     from mesonbuild.cargo.cfg import eval_cfg
     from mesonbuild.mesonlib import MesonException
     prefix, maxlen = shard
     sigs: T.Set[str] = set()
     hist: T.Dict[str, int] = {}
-    seen: T.Set[str] = set()
     n = nmal = 0
     for L in range(0, maxlen - len(prefix) + 1):
         for rest in itertools.product(TOKS, repeat=L):
-            text = join_tokens(prefix + rest)
-            if text in seen:
-                continue
-            seen.add(text)
+            seq = prefix + rest
+            if any(x in WORDS and y in WORDS for x, y in zip(seq, seq[1:])):
+                continue        # same text as the sequence with an explicit ' ' token: keeps text <-> sequence one-to-one
+            text = ''.join(seq)
             f, cls = check_cfg_text(eval_cfg, MesonException, text, PROBE_CFGS)
             hist[cls] = hist.get(cls, 0) + 1
             if cls.startswith('excluded:'):
@@ -909,9 +937,9 @@ def _mutation_shard(shard: T.Tuple[int, int, int], ev: Evidence, fails: T.List[F
                 nmal += 1
             if f is not None and f.sig not in sigs:
                 sigs.add(f.sig)
-                fails.append(f)
-    ev.evaluations += n
-    ev.add_distinct(nmal)
+                fails.append(shrink_text_failure(eval_cfg, MesonException, f))
+    ev.evaluations += n          # not added to distinct_nontrivial: different shards may produce the same mutated text
+    ev.event('cfg/mutated_tree_malformed', nmal)
     for k, v in hist.items():
         if k.startswith('excluded:'):
             ev.exclude('known lexer defect class (' + k[9:] + '), dedicated probe instead', v)
@@ -987,11 +1015,8 @@ def run_case(case: T.Dict[str, T.Any]) -> T.Optional[Failure]:
     if kind == 'semver_triple':
         return check_semver_triple(SemVer, case['a'], case['b'], case['c'])
     if kind == 'cfg_tree':
-        f = check_cfg_tree(eval_cfg, MesonException, case['tree'], case['cfgs'], case.get('style', 0), shrink=False,
-                           weak_value=case.get('weak_value', False))
-        if f is not None and case.get('weak_value') and case['tree'][0] == 'eq' and case['tree'][2][:1].isspace():
-            f.sig = 'cfg/value-leading-blank-dropped'
-        return f
+        return check_cfg_tree(eval_cfg, MesonException, case['tree'], case['cfgs'], case.get('style', 0), shrink=False,
+                              weak_value=case.get('weak_value', False))
     if kind == 'cfg_text':
         return check_cfg_text(eval_cfg, MesonException, case['text'], case['cfgs'], honour_known=False)[0]
     raise HarnessError(f'unknown case kind {kind!r}')
@@ -1129,14 +1154,19 @@ def validate_against_cargo(ctx: Ctx, probe: R.CargoProbe, cells: T.Sequence[T.Tu
         want = R.cargo_matches(req, v)
         if g != want:
             raise HarnessError(f'refcargo.cargo_matches({req!r}, {v!r}) = {want} but real Cargo says {g}')
-        # the rule stated by the property may differ from Cargo only through D1/D2, and only for release versions
+        # the rule stated by the property may differ from Cargo only through D1/D2 (release versions; nothing is
+        # claimed about the value for pre-release versions beyond the gate, which Cargo shares)
+        if R.parse_version(v).pre:
+            if g and not R.names_prerelease(R.parse_req(req)):
+                raise HarnessError(f'Cargo accepts pre-release {v!r} for {req!r} which names no pre-release')
+            continue
         try:
             pinned = R.matches(req, v)
         except R.RefError:
             continue
         if pinned != g:
             nd += 1
-            if R.parse_version(v).pre or not any(R.deviation_of(c) for c in R.parse_req(req)):
+            if not any(R.deviation_of(c) for c in R.parse_req(req)):
                 raise HarnessError(f'pinned rule and Cargo differ outside D1/D2 on {req!r} / {v!r}')
     for req, g in zip(invalid, got[len(cells):]):
         if g is not None:
@@ -1172,8 +1202,6 @@ def thorough_cargo_validation(ctx: Ctx) -> None:
     cells: T.List[T.Tuple[str, str]] = []
     for _ in range(ctx.n(0, 2600)):
         comps = rnd.choice(singles) if rnd.random() < 0.7 else [rnd.choice(base) for _ in range(rnd.choice((2, 2, 3)))]
-        if comps == [('', '*')] and False:
-            continue
         req = render_req(comps, rnd.randrange(4))
         # aim at the boundary: versions near the requirement's own numbers
         c0 = R.parse_req(req)[0] if R.parse_req(req) else None
@@ -1228,21 +1256,23 @@ def run(ctx: Ctx) -> None:
     pmap(ctx, _req_shard, [(lists[lo:hi], lo, ctx.seed, stride, 'req_list') for lo, hi in _ranges(len(lists), 64)])
     # (b) SemVer order
     pmap(ctx, _semver_shard, _ranges(len(SEMVER_SET), 32))
-    pmap(ctx, _semver_text_shard, [(s, ctx.n(600, 8000)) for s in shard_seeds(ctx, 16)])
+    pmap(ctx, _semver_text_shard, [(s, ctx.n(250, 5000)) for s in shard_seeds(ctx, 16)])
     # (c) cfg trees
     N = len(level2())
     pmap(ctx, _cfg_shard, [('l2', lo, hi, ctx.seed, 1) for lo, hi in _ranges(N, 16)])
     total3 = 2 * N * N + 3 * N
-    pmap(ctx, _cfg_shard, [('l3', lo, hi, ctx.seed, stride) for lo, hi in _ranges(total3, 64)])
-    pmap(ctx, _cfg_shard, [('sample', lo, hi, ctx.seed, 1) for lo, hi in _ranges(ctx.n(16000, 100000), 32)])
+    pmap(ctx, _cfg_shard, [('l3', lo, hi, ctx.seed, 9 if ctx.quick else 1) for lo, hi in _ranges(total3, 64)])
+    pmap(ctx, _cfg_shard, [('sample', lo, hi, ctx.seed, 1) for lo, hi in _ranges(ctx.n(6000, 100000), 32)])
     pmap(ctx, _cfg_value_shard, [0])
     # (d) malformed
     maxlen = 4 if ctx.quick else 5
     pmap(ctx, _malformed_enum_shard, [((), 1)] + [((a, b), maxlen) for a in TOKS for b in TOKS])
     pmap(ctx, _mutation_shard, [(ctx.seed, lo, hi) for lo, hi in _ranges(ctx.n(320, 3200), 32)])
-    pmap(ctx, _text_shard, [(s, ctx.n(1200, 15000)) for s in shard_seeds(ctx, 16)])
+    pmap(ctx, _text_shard, [(s, ctx.n(500, 10000)) for s in shard_seeds(ctx, 16)])
     if not ctx.quick:
         thorough_cargo_validation(ctx)
+    for k in [k for k, v in ctx.ev.hist.items() if v == 0]:     # classes that only carry samples
+        del ctx.ev.hist[k]
     ctx.exhaustive = not ctx.quick
     ctx.ev.extra['requirement_singles'] = len(singles)
     ctx.ev.extra['requirement_lists'] = len(lists)
@@ -1251,5 +1281,5 @@ def run(ctx: Ctx) -> None:
     ctx.ev.extra['exhaustive_scope'] = (
         'thorough: every (single requirement, blank spelling) x every release version and every pre-release spelling where a claim exists; '
         'every ordered pair of the list base; all pairs/triples of the SemVer set; every cfg tree of depth<=2 and every depth-3 tree of arity<=2 '
-        'x 40 assignments; every token string of length<=5. quick: a third of the cells / depth-3 trees (selected by index+seed), token strings <=4. '
+        'x 40 assignments; every token string of length<=5. quick: a third of the requirement cells and a ninth of the depth-3 trees (selected by index+seed), token strings <=4. '
         'comma lists of 3, arity-3 trees at depth 3, mutations and free text are sampled in both tiers.')
